@@ -50,6 +50,18 @@ impl C04 {
     let l = lunlist();
     out.eval("span");
     let k = [("y", y)];
+    // "otherwise there is no leap month": exactly the stored leap month can be constructed, every other -k is refused
+    {
+      let stored = tyme4rs::tyme::lunar::LunarYear::from_year(y as isize).get_leap_month() as i64;
+      for kk in 1..=12i64 {
+        let r = guard(|| tyme4rs::tyme::lunar::LunarMonth::new(y as isize, -(kk as isize)).map(|m| m.get_month_with_leap() as i64));
+        let accepted = matches!(r, Ok(Ok(_)));
+        if accepted != (kk == stored) {
+          out.fail(env, viol("span", if accepted { "leap_month_the_year_does_not_have_is_accepted" } else { "stored_leap_month_is_refused" }, case, &[("y", y), ("k", kk)], format!("LunarMonth::new({}, -{})", y, kk), if kk == stored { "accepted (stored leap month)".into() } else { format!("refused (stored leap month of {} is {})", y, stored) }, format!("{:?}", r)));
+          break;
+        }
+      }
+    }
     let w0 = cursory_jdn(y, 0);
     let w1 = cursory_jdn(y + 1, 0);
     let g0 = l.pos(y - 1, 11).unwrap_or(0);
